@@ -123,6 +123,40 @@ def run(ctx):
     finally:
         import shutil
         shutil.rmtree(d, ignore_errors=True)
+    unreadable_status(ctx)
+
+
+def unreadable_status(ctx):
+    """"for every file exactly one of N, +N, -N is true" needs the file's status: where it cannot be read (an entry of a directory that may be
+    listed but not searched, as an unprivileged user) none is true - and that must not pass silently: a diagnostic and exit status 1"""
+    import subprocess
+    from props import known_common as kc
+    os.makedirs(os.path.join(fw.BUILD, "tmp"), exist_ok=True)
+    d = tempfile.mkdtemp(prefix="c14u-", dir=os.path.join(fw.BUILD, "tmp"))
+    try:
+        os.makedirs(os.path.join(d, "p", "d"))
+        open(os.path.join(d, "p", "d", "f1"), "wb").close()
+        os.chmod(d, 0o755)
+        pre = kc.unprivileged(d.encode())
+        if pre is None:
+            ctx.notes.append("unreadable_status: no unprivileged user available here, scenario skipped")
+            return
+        os.chmod(os.path.join(d, "p", "d"), 0o744)
+        for test in (["-links", "1"], ["-inum", "+0"], ["-uid", "0"], ["-gid", "-5"], ["-size", "0"], ["-mtime", "+0"], ["-mmin", "-5"]):
+            p = subprocess.run(pre + [fw.FIND, "p", "(", test[0], test[1].lstrip("+-"), "-o", test[0], "+" + test[1].lstrip("+-"), "-o", test[0], "-" + test[1].lstrip("+-"), ")"],
+                               stdout=subprocess.PIPE, stderr=subprocess.PIPE, cwd=d, env=xc.ENV, timeout=60)
+            ctx.count(("unreadable-status", test[0]), True, "unreadable-status")
+            listed = b"p/d/f1" in p.stdout
+            if not listed and (p.returncode != 1 or b"p/d/f1" not in p.stderr):
+                ctx.violation("find p ( %s N -o %s +N -o %s -N ) as an unprivileged user, p/d listable but not searchable: p/d/f1 matches none of the three, "
+                              "exit %d, diagnostics %r" % (test[0], test[0], test[0], p.returncode, p.stderr[:100]),
+                              {"property": "C14", "kind": "unreadable-status", "test": test[0], "exit": p.returncode, "stdout": p.stdout.decode("utf-8", "replace"),
+                               "stderr": p.stderr.decode("utf-8", "replace")[:300],
+                               "explain": "trichotomy holds for every file whose value can be measured; a file whose status cannot be read is diagnosed, exit 1"})
+    finally:
+        import shutil
+        os.chmod(os.path.join(d, "p", "d"), 0o755)
+        shutil.rmtree(d, ignore_errors=True)
 
 
 def replay(ctx, rep):
